@@ -213,7 +213,21 @@ def backward_pass(ctx, world):
             init = st.value
             break
     if og is None:
-        raise AnalysisError("backward_pass: accumulator dict vanished")
+        # the accumulator is whatever add_outgrads results are stored into
+        for x in ast.walk(fn):
+            if isinstance(x, ast.Assign) and isinstance(x.targets[0], ast.Subscript) and isinstance(x.targets[0].value, ast.Name) and isinstance(x.value, ast.Call) and isinstance(x.value.func, ast.Name) and x.value.func.id == "add_outgrads":
+                og = x.targets[0].value.id
+        if og is None:
+            raise AnalysisError("backward_pass: accumulator dict vanished")
+        ctx.fail(
+            "A13.once",
+            "backward_pass: accumulator is a fresh dict per call",
+            f"{q}:accumulator-not-fresh",
+            loc,
+            f"the cotangent accumulator `{og}` is not a dict literal created unconditionally inside backward_pass (it is a parameter / shared / conditionally created): state survives from one backward evaluation to the next",
+            "the same vjp function evaluated again after an evaluation that raised half-way (stale cotangents are added to the next result), or evaluated re-entrantly",
+        )
+        return
     ok = len(init.keys) == 1 and isinstance(init.keys[0], ast.Name) and init.keys[0].id == endp and isinstance(init.values[0], ast.Tuple) and len(init.values[0].elts) == 2
     if ok:
         v = init.values[0].elts
